@@ -46,7 +46,6 @@ func (r implRes) String() string { return r.Status + "|" + r.Out }
 type runner struct {
 	c       *vh.Ctx
 	m       *vh.Model
-	env     *vh.VMEnv
 	n       int
 	pending []gcase
 	shrunk  map[string]int
@@ -55,23 +54,10 @@ type runner struct {
 
 func (r *runner) tagFor() string { r.n++; return strconv.Itoa(r.n) }
 
-// runImpl runs the program on a fresh VM.
+// runImpl runs the program on a fresh VM in a child process.
 func runImpl(p *Prog, tag string) implRes {
-	env := vh.NewEnv()
-	o := env.RunSource(p.Source(tag), "/verif-c02.php")
-	res := implRes{Out: o.Out, Detail: o.Detail}
-	switch {
-	case o.Kind == "ok" && len(env.Thrown) == 0:
-		res.Status = "done"
-	case o.Kind == "ok" || o.Kind == "uncaught":
-		res.Status = "error"
-		if len(env.Thrown) > 0 {
-			res.Detail = firstLine(env.Thrown[0])
-		}
-	default:
-		res.Status = o.Kind
-	}
-	return res
+	rs := runAll(1, []runReq{{Src: p.Source(tag), Tag: tag}})[0]
+	return implRes{Out: rs.Out, Status: rs.Status, Detail: rs.Detail}
 }
 
 func firstLine(s string) string {
@@ -128,8 +114,8 @@ func differs(impl implRes, ref RefResult) bool {
 
 func divergenceKind(impl implRes, ref RefResult) string {
 	switch {
-	case impl.Status == "go-panic":
-		return "go-panic"
+	case impl.Status == "go-panic" || impl.Status == "hang" || impl.Status == "died":
+		return impl.Status
 	case impl.Status == "parse-error":
 		return "rejected"
 	case impl.Status != ref.Status:
@@ -175,6 +161,12 @@ func (r *runner) flush() {
 			return
 		}
 	}
+	reqs := make([]runReq, len(cases))
+	for i, g := range cases {
+		tag := r.tagFor()
+		reqs[i] = runReq{ID: i, Src: g.Prog.Source(tag), Tag: tag, Nodes: true}
+	}
+	impls := runAll(c.Workers, reqs)
 	for i, g := range cases {
 		p := g.Prog
 		ref := RunRef(p, refBudgetN)
@@ -182,8 +174,7 @@ func (r *runner) flush() {
 			c.Hit("skipped:reference-budget")
 			continue
 		}
-		tag := r.tagFor()
-		impl := runImpl(p, tag)
+		impl := implRes{Out: impls[i].Out, Status: impls[i].Status, Detail: impls[i].Detail}
 		feats := p.Features()
 		key := g.Stream + ":" + p.Sexp()
 		c.Eval(key, len(feats) >= 2 && len(ref.Out) > 0)
@@ -213,24 +204,19 @@ func (r *runner) flush() {
 			if (frag == "yes") != p.InFragment() {
 				c.Mismatch(g, fmt.Sprint(p.InFragment()), frag, "Spec.Ctl.inFragment vs the harness's fragment test (machinery)")
 			}
-			if g.Stream != "known-multi" || !hasContinueN(p) {
-				text, problems, perr := DumpNodes(r.env.Parser, p.Source(tag), tag)
-				switch {
-				case perr != "":
-					if impl.Status != "parse-error" {
-						c.Mismatch(g, perr, nodes, "node tree: parser failed")
-					}
-				case len(problems) > 0:
-					c.Mismatch(g, strings.Join(problems, "; "), nodes, "node tree: node kinds outside the modelled core")
-				case text != nodes:
-					c.Mismatch(g, text, nodes, "node tree: parser vs Model.Ctl.compile")
-				default:
-					c.Res.Traces++
+			text, problems, perr := impls[i].Nodes, impls[i].Problems, impls[i].NodeErr
+			switch {
+			case impl.Status == "hang" || impl.Status == "died":
+			case perr != "":
+				if impl.Status != "parse-error" {
+					c.Mismatch(g, perr, nodes, "node tree: parser failed")
 				}
-			} else if text, _, perr := DumpNodes(r.env.Parser, p.Source(tag), tag); perr == "" && text == nodes {
-				c.Res.Traces++ // `continue n`: the dead literal statement is dropped on both sides
-			} else {
-				c.Mismatch(g, text+perr, nodes, "node tree (continue n): parser vs Model.Ctl.compile")
+			case len(problems) > 0:
+				c.Mismatch(g, strings.Join(problems, "; "), nodes, "node tree: node kinds outside the modelled core")
+			case text != nodes:
+				c.Mismatch(g, text, nodes, "node tree: parser vs Model.Ctl.compile")
+			default:
+				c.Res.Traces++
 			}
 		}
 
@@ -244,7 +230,7 @@ func (r *runner) flush() {
 		if known && r.shrunk[quick] >= 2 {
 			// already have shrunk witnesses of this known kind; the model explains this one too
 			// (checked above), just count it
-			c.Violation(quick, "", nil)
+			c.Violation(quick, "origami and the reference semantics differ ("+kind+") on a program of the known stream; the model predicts origami's output", g)
 			c.Hit("known-divergence:" + quick)
 			continue
 		}
@@ -266,16 +252,6 @@ func bucket(n int) int {
 		b *= 10
 	}
 	return b
-}
-
-func hasContinueN(p *Prog) bool {
-	h := false
-	p.walk(func(s *S) {
-		if s.K == "continue" && s.N != 1 {
-			h = true
-		}
-	}, nil)
-	return h
 }
 
 // ---------------------------------------------------------------- shrinking
@@ -582,7 +558,7 @@ func corpus() []gcase {
 // ---------------------------------------------------------------- run
 
 func Run(c *vh.Ctx) {
-	r := &runner{c: c, shrunk: map[string]int{}, env: vh.NewEnv()}
+	r := &runner{c: c, shrunk: map[string]int{}}
 	if c.ModelPath != "" {
 		m, err := vh.StartModel(c.ModelPath)
 		if err != nil {
